@@ -602,11 +602,16 @@ func mergeStates(base int, sts []*State) *State {
 	m := &State{c: c, hsort: live[0].hsort}
 	m.items = append(m.items, live[0].items[:base]...)
 	guards := make([]string, len(live))
+	seenDecl := map[string]bool{}
 	for i, s := range live {
 		var as []string
 		for _, it := range s.items[base:] {
 			if it.Decl != "" {
-				m.items = append(m.items, it)
+				// states forked after base share declarations: keep one copy
+				if !seenDecl[it.Decl] {
+					seenDecl[it.Decl] = true
+					m.items = append(m.items, it)
+				}
 			} else {
 				as = append(as, it.Assume)
 			}
